@@ -18,6 +18,18 @@ CLAIMED = {
         note="NOT decided: gob/gzip round-trip fidelity (stdlib). Trusted: go/parser+go/printer statement comparison, go/ssa, checker/sx.go.",
         technique="static analysis: AST diff of template instantiations + writer/reader agreement tables by abstract interpretation + use-site enumeration of flag getters",
         design="§4 C12"),
+    "C13": dict(
+        level="other",
+        text="Thin, structural: layout and spelling have no channel into the output except the sequence of (type, text) pairs: the front-end token has no position field and no ast type holds a position (R13.1); a character literal's raw spelling is never read, consumers use the decoded value or the rendering computed from it (R13.2); decoding follows Go's escape table (R13.3); a string literal's content is its text without first and last byte whatever the quote (R13.4).",
+        note="NOT decided: the hand-written scanner's loops (white space, comments, where literals end) — the reason this claim is thin. Trusted: go/types, go/ssa, checker/sx.go.",
+        technique="static analysis: type-level reachability + field read-set + decision tables by abstract interpretation",
+        design="§4 C13"),
+    "C14": dict(
+        level="other",
+        text="Partial, structural: no detected problem is swallowed. Error recovery of the front end is inert (R14.1); the scanner's error count and the parse error each lead to a non-zero exit on a branch that dominates every generator call (R14.2, R14.3); NewGrammar returns the consistency verdict, empty alternatives, undefined production names, duplicate definitions and unknown ids are errors or panics (R14.4); undefined regular-definition references are rejected before generation (R14.5).",
+        note="NOT decided: that the token-level language is exactly the documented one (that is C15) and the scanner's classification of every byte sequence. Trusted: go/ssa, checker/sx.go, control dependence via post-dominators.",
+        technique="static analysis: control-dependence/dominance of exit guards on SSA + decision tables by abstract interpretation",
+        design="§4 C14"),
     "C15": dict(
         level="translation_validation",
         text="The checked-in LR tables of gocc's own parser are validated against spec/gocc2.ebnf: the checker reads the specification with its own reader, builds the canonical LR(1) automaton with its own construction and walks it in lock-step with tables.go (all state x token and state x nonterminal cells, productions with head/body/length/action text), requiring a bijection of states. Error recovery must be inert (R15.3). Cell-wise agreement up to state renaming of two deterministic automata implies equal token languages and reduction sequences, which is exactly the property; no finite set of test inputs can show that.",
@@ -90,6 +102,18 @@ CLAIMED = {
         note="NOT decided: never panics/loops (the template asserts a shift and panics on an empty cell after recovery), inertness on valid input (needs C02), token conservation across several recoveries. Trusted: go/ssa, checker/sx.go.",
         technique="static analysis: region transfer tables by finite-world abstract interpretation of the instantiated parser template",
         design="§4 C07"),
+    "C19": dict(
+        level="other",
+        text="Partial, structural: the .md dispatch (only names ending in .md go through md.GetSource, whose result is the one buffer the scanner gets) and the store discipline of loadMd in every world (prose/code x fence/partial fence/plain rune incl. every rune value the code compares with x newline x end of buffer): only spaces are written, never over a newline, only in prose or on a fence; a fence toggles the mode; the buffer is never resized and is what GetSource returns. Hence lines and rune columns are preserved and code is untouched.",
+        note="NOT decided: exact fence recognition for every text (e.g. a fence right after a closing fence). Trusted: go/ssa, checker/sx.go.",
+        technique="static analysis: loop-body transfer table by finite-world abstract interpretation of SSA",
+        design="§4 C19"),
+    "C20": dict(
+        level="other",
+        text="Partial, structural: both escape decoders (gocc's own and the generated util package) are decided independently against Go's table: dispatch on all 256 values of the byte after the backslash, one step of the digit loop, the final range check incl. surrogates, digitVal on 300 values, the escape/plain-rune choice, and IntValue/UintValue = strconv base 10 / 64 bits. Both copies satisfying the same tables means gocc and generated code read literals identically.",
+        note="NOT decided: the accumulated value of the digit loop for every literal (only its step and parameters). Trusted: go/ssa, checker/sx.go, strconv.UnquoteChar as reference.",
+        technique="static analysis: decision-table extraction by finite-world abstract interpretation of SSA, compared with a table frozen from the Go specification",
+        design="§4 C20"),
 }
 
 NA_REASON_PENDING = "check not built yet in this round (design in DESIGN.md §4); no claim is made until the rule set exists and passes its mutants"
